@@ -3735,11 +3735,27 @@ class MapIndexAlign(MapAlign):
 
 class OpAlignPartitions(MaybeAlignPartitions):
     _parameters = ["frame", "other", "op"]
-    _projection_passthrough = True
 
     @functools.cached_property
     def _meta(self):
         return getattr(self.frame._meta, self.op)(self.other._meta)
+
+    def _simplify_up(self, parent, dependents):
+        if isinstance(parent, Projection):
+            # Both operands can be DataFrames: select the columns from each
+            # of them (like Binop) and keep the projection of the result
+            columns = determine_column_projection(self, parent, dependents)
+            columns = _convert_to_list(columns)
+            substitutions = {}
+            for param in ["frame", "other"]:
+                operand = self.operand(param)
+                if isinstance(operand, Expr) and operand.ndim > 1:
+                    operand_columns = [c for c in operand.columns if c in columns]
+                    if operand.columns != operand_columns:
+                        substitutions[param] = operand[operand_columns]
+            if substitutions:
+                result = self.substitute_parameters(substitutions)
+                return type(parent)(result, *parent.operands[1:])
 
     def _lower(self):
         # This can be expensive when something that has expensive division
